@@ -152,6 +152,9 @@ func genShape(t *rapid.T) ([]byte, string) {
 			maxD = 30000
 		}
 		d := rapid.IntRange(1, maxD).Draw(t, "depth")
+		if rapid.IntRange(0, 2).Draw(t, "near128") == 0 {
+			d = rapid.IntRange(120, 136).Draw(t, "d128") // around the initial capacity of the parser's scope stack
+		}
 		switch rapid.IntRange(0, 2).Draw(t, "deepkind") {
 		case 0:
 			b.WriteString(strings.Repeat("[", d))
